@@ -28,8 +28,8 @@ FoldM(st, evs, i) ==
   IF i > Len(evs) THEN [m |-> st, why |-> "-"]
   ELSE LET r == JudgeM(st, evs[i]) IN IF r.why # "-" THEN r ELSE FoldM(r.m, evs, i + 1)
 
-Key(k, h) == [cb |-> "keypress", ev |-> [t |-> "keypress", key |-> k, handled |-> h]]
-Mouse(k, h) == [cb |-> "mouse_event", ev |-> [t |-> "mouse_event", key |-> k, handled |-> h]]
+Key(k, h) == [cb |-> "keypress", ev |-> [t |-> "keypress", key |-> k, handled |-> h, w |-> 1]]
+Mouse(k, h) == [cb |-> "mouse_event", ev |-> [t |-> "mouse_event", key |-> k, handled |-> h, w |-> 1]]
 Unh(k) == [cb |-> "unhandled", ev |-> [t |-> "unhandled", key |-> k]]
 Filt(ks, out) == [cb |-> "filter", ev |-> [t |-> "filter", keys |-> ks, out |-> out]]
 Plain(e) == [cb |-> "", ev |-> e]
